@@ -2,6 +2,7 @@ package verifworld
 
 import (
 	"fmt"
+	"strings"
 
 	vs "metacontroller/pkg/internal/verifsim"
 )
@@ -189,6 +190,33 @@ func PropC04(c *vs.Case, f Factory) error {
 			c.Class("env:parent-deleting")
 		case 2: // live parent replaced by a new object with the same name
 			env.W.Sim.Purge(scn.Cfg.ParentResource, scn.ParentNS(), scn.ParentName())
+			if !scn.Cfg.GenerateSelector && c.Bool() {
+				// the new object of that name selects other children (and its hook labels them accordingly)
+				cur := scn.SelLabels["app"]
+				next := cur + "-b"
+				if strings.HasSuffix(cur, "-b") {
+					next = strings.TrimSuffix(cur, "-b")
+				}
+				scn.SelLabels["app"] = next
+				for i := range scn.Prog.Children {
+					if scn.Prog.Children[i].Labels != nil {
+						scn.Prog.Children[i].Labels["app"] = next
+					}
+				}
+				scn.Prog.Install(env.W, scn.Cfg.Kind)
+				spec := scn.Parent["spec"].(map[string]any)
+				if sel, ok := spec["selector"].(map[string]any); ok {
+					if ml, ok := sel["matchLabels"].(map[string]any); ok {
+						ml["app"] = next
+					}
+				}
+				if tl, ok := getPath(scn.Parent, "spec.template.metadata.labels"); ok {
+					if tm, ok := tl.(map[string]any); ok {
+						tm["app"] = next
+					}
+				}
+				c.Class("env:parent-replaced-with-other-selector")
+			}
 			np, _ := env.W.Sim.ExtCreate(scn.Cfg.ParentResource, scn.Parent)
 			log = append(log, "live parent replaced, new uid "+metaStr(np, "uid"))
 			c.Class("env:parent-replaced")
